@@ -1,4 +1,4 @@
-\* replayed exhaustively: the space of P2Bin_MC_mixedpost.cfg (mixed granularity x two files with (offset) x -S none / B3 x -s x -e; -l 90)
+\* replayed exhaustively: the space of P2Bin_MC_mixedpost.cfg (mixed granularity x two files with (offset) x -S none / B3 x -s x -e; -l 90, -m ALL)
 CONSTANTS
   Dev = {}
   MaxRecs = 2
@@ -12,7 +12,7 @@ CONSTANTS
   SegOpts = {1}
   CpuSegs <- CS_One
   Ranges <- R_MixedPost
-  LaneSet <- L_Two
+  LaneSet <- L_All1
   FiltSet <- F_None
   ESet <- E_Mixed
   HdrSet <- H_MixedPost2
